@@ -96,6 +96,11 @@ func layeringCase(prop string, seed int64, tier string, idx int, layerer int) *c
 	default:
 		c.Family, c.Edges = smallGraph(r)
 	}
+	if layerer == 1 && idx%1000 == 777 {
+		// every configuration, whatever the depth of the graph: a path of more than 1024 nodes (recursion depth, layer count)
+		g := gen.DeepPath(r, 0)
+		c.Family, c.Edges = g.Family, gen.Names(g)
+	}
 	var o core.Opts
 	o.Breaker = r.Intn(3)
 	if o.Breaker == 1 {
@@ -103,7 +108,19 @@ func layeringCase(prop string, seed int64, tier string, idx int, layerer int) *c
 	}
 	o.Layerer = layerer
 	o.Positioner = 1 // valign: cheap
-	o.Router = 4     // noop
+	if layerer == 1 {
+		// "every configuration with LayeringLongestPath": other positioners, options that concern other algorithms
+		// (the thoroughness of the network simplex), explicit defaults and any order of the options
+		o.Positioner = []int{1, 1, 1, 0, 2, 4}[r.Intn(6)]
+		if r.Intn(4) == 0 {
+			o.Thoroughness = uptr([]uint{28, 1, 5, 100}[r.Intn(4)])
+		}
+		o.Explicit = r.Intn(4) == 0
+		if r.Intn(2) == 0 {
+			o.Shuffle = 1 + r.Int63n(1<<40)
+		}
+	}
+	o.Router = 4 // noop
 	o.Virtual = true
 	switch r.Intn(3) {
 	case 0:
@@ -345,7 +362,19 @@ func init() {
 				o.Explicit = r.Intn(2) == 0
 			} else {
 				// no reversal on acyclic inputs
-				switch r.Intn(4) {
+				switch r.Intn(5) {
+				case 4:
+					// several tiny components (2-3 nodes) with self loops anywhere in the edge list, also in front: shortcuts for
+					// small components, node order fixed by a self loop. Self loops are not edges of any other cycle; with the
+					// depth-first breaker a reversed edge next to them is redundant like any other
+					var parts []gen.IG
+					for k := 2 + r.Intn(3); k > 0; k-- {
+						parts = append(parts, gen.Multi(r, gen.DAG(r, 2+r.Intn(2), 0.7), 0.3, 0))
+					}
+					g, _ := gen.Union(r, parts)
+					g = gen.SelfLoops(r, g, 1+r.Intn(3))
+					g.Family = "F4-selfloops(tiny-acyclic-union)"
+					c.Family, c.Edges = g.Family, gen.Names(g)
 				case 0:
 					g := gen.Tree(r, 2+r.Intn(20), r.Intn(2) == 0)
 					c.Family, c.Edges = g.Family, gen.Names(g)
@@ -366,6 +395,19 @@ func init() {
 			o.Layerer = r.Intn(2)
 			o.Positioner = 1
 			o.Router = []int{4, 1, 0}[r.Intn(3)]
+			if idx%1000 == 500 || idx%1000 == 501 {
+				// a path of more than 1024 nodes (thresholds on the depth of the walk), with 1-3 cycles in the even cases
+				back := 0
+				if idx%2 == 0 {
+					back = 1 + r.Intn(3)
+				}
+				g := gen.DeepPath(r, back)
+				c.Family, c.Edges = g.Family, gen.Names(g)
+				o.Layerer, o.Router = 1, 4
+			}
+			if r.Intn(2) == 0 {
+				o.Shuffle = 1 + r.Int63n(1<<40)
+			}
 			c.Opts = o
 			if r.Intn(4) == 0 {
 				// node names are opaque: a quarter of the cases uses names whose concatenations collide
@@ -396,7 +438,10 @@ func init() {
 				}
 			}
 			r := held()
-			if !f.cyclic {
+			if !f.cyclic && f.selfLoops > 0 && c.Opts.Breaker != 2 {
+				// strictly, an input with a self loop is not acyclic, and the greedy breaker promises no minimality
+				r.stat("self_loops_with_greedy_not_judged", 1)
+			} else if !f.cyclic {
 				if flagged > 0 {
 					var which []string
 					for i, fl := range d.flagged {
